@@ -278,16 +278,17 @@ func runPgHistory(ops []pgOp, faults map[int]int) *pgResult {
 		}
 		rk := refKey(h.ctx.pfx, h.ctx.sid, op.Key, h.ctx.lang)
 		faultsGone := e.srv.Calls() >= lastFaultCall && !faulted
-		hs := map[string]string{"handle_used_explicit_tx_before": yn(h.hadStart)}
+		hs := map[string]string{"handle_used_explicit_tx_before": yn(h.hadStart), "any_explicit_tx_before": yn(e.anyStart)}
 		switch op.Kind {
 		case "start":
 			if err == nil {
 				h.multi = true
 				h.pending = map[string]string{}
 				h.doomed = false
+				// only a Start that succeeded puts the handle into the (pinned) sticky multi-operation mode
+				h.hadStart = true
+				e.anyStart = true
 			}
-			h.hadStart = true
-			e.anyStart = true
 		case "put":
 			e.written[rk] = true
 			if h.multi {
